@@ -109,14 +109,23 @@ static void *ext_fn(void *arg)
     return NULL;
 }
 
-static void create_unit(int i)
+static void mig_cb(ABT_thread thread, void *arg);
+/* with_attr: the ULT is created non-migratable with the migration callback given in the attribute ('a' op) */
+static void create_unit_x(int i, int with_attr)
 {
     unit_t *u = &g_u[i];
     ABT_pool pool = pool_handle(u->pool);
     int ret;
     u->arg_given = u;
     vh_note(UEV_OPB, 'C', i, 0);
-    if (u->kind == 'U')
+    if (u->kind == 'U' && with_attr) {
+        ABT_thread_attr attr;
+        if (ABT_thread_attr_create(&attr) != ABT_SUCCESS || ABT_thread_attr_set_migratable(attr, ABT_FALSE) != ABT_SUCCESS ||
+            ABT_thread_attr_set_callback(attr, mig_cb, u) != ABT_SUCCESS)
+            VH_DIE("attr");
+        ret = ABT_thread_create(pool, unit_fn, u, attr, u->named == 'N' ? &u->h : NULL);
+        ABT_thread_attr_free(&attr);
+    } else if (u->kind == 'U')
         ret = ABT_thread_create(pool, unit_fn, u, ABT_THREAD_ATTR_NULL, u->named == 'N' ? &u->h : NULL);
     else
         ret = ABT_task_create(pool, unit_fn, u, u->named == 'N' ? &u->h : NULL);
@@ -124,6 +133,12 @@ static void create_unit(int i)
         VH_DIE("create failed %d", ret);
     u->created = 1;
     vh_note(UEV_OPE, 'C', i, (uintptr_t)(u->named == 'N' ? (void *)u->h : NULL));
+    if (with_attr)
+        vh_note(UEV_OPE, 'b', i, 0); /* a callback is installed (same note as the 'b' op) */
+}
+static void create_unit(int i)
+{
+    create_unit_x(i, 0);
 }
 
 static void wait_blocked(unit_t *me, int i);
@@ -190,11 +205,54 @@ static void run_ops(unit_t *me)
             case 'C':
                 create_unit(i);
                 break;
+            case 'a':
+                create_unit_x(i, 1);
+                break;
+            case 'n':
+                ret = ABT_thread_set_migratable(g_u[i].h, ABT_TRUE);
+                if (ret != ABT_SUCCESS)
+                    VH_DIE("set_migratable %d", ret);
+                break;
             case 'J':
                 vh_note(UEV_OPB, 'J', i, 0);
                 ret = ABT_thread_join(g_u[i].h);
                 vh_note(UEV_OPE, 'J', i, ret);
                 break;
+            case 'N':   /* "N1.2._.3": ABT_thread_join_many over the listed units, '_' = ABT_THREAD_NULL entry */
+            case 'E': { /* "E1._.2":   ABT_thread_free_many */
+                ABT_thread list[32];
+                int idx[32], n = 0;
+                const char *q = t + 1;
+                while (*q && n < 32) {
+                    if (*q == '_') {
+                        idx[n] = -1, list[n] = ABT_THREAD_NULL, n++, q++;
+                    } else {
+                        idx[n] = atoi(q), list[n] = g_u[idx[n]].h, n++;
+                        while (*q >= '0' && *q <= '9')
+                            q++;
+                    }
+                    if (*q == '.')
+                        q++;
+                }
+                int k2, unfinished = 0;
+                for (k2 = 0; k2 < n; k2++)
+                    if (idx[k2] >= 0)
+                        vh_note(UEV_OPB, t[0] == 'N' ? 'J' : 'F', idx[k2], 0);
+                ret = t[0] == 'N' ? ABT_thread_join_many(n, list) : ABT_thread_free_many(n, list);
+                /* what the caller may rely on when the call returns: every listed unit has terminated */
+                for (k2 = 0; k2 < n; k2++)
+                    if (idx[k2] >= 0 && !g_u[idx[k2]].finished && !g_u[idx[k2]].cancelled)
+                        unfinished++;
+                vh_note(UEV_OPE, 'N', n, ret * 1000 + unfinished);
+                for (k2 = 0; k2 < n; k2++)
+                    if (idx[k2] >= 0) {
+                        if (t[0] == 'E')
+                            g_u[idx[k2]].h = list[k2];
+                        vh_note(UEV_OPE, t[0] == 'N' ? 'J' : 'F', idx[k2],
+                                ret + (t[0] == 'E' && list[k2] != ABT_THREAD_NULL ? 1000 : 0));
+                    }
+                break;
+            }
             case 'F':
                 vh_note(UEV_OPB, 'F', i, 0);
                 ret = ABT_thread_free(&g_u[i].h);
